@@ -14,17 +14,19 @@ def run(tier: str, seed: int):
                 + list(F.fam_faults(2, 4, max_faults=1, reqs='sinks', cofs=(True,)))
                 + list(F.fam_shapes(2, 3, batch=2, bust=(True,))))
         serial = (list(F.fam_shapes(1, 3, batch=1)) + list(F.fam_faults(2, 3, cofs=(True,), kinds=('raise',)))
-                  + list(F.fam_shapes(2, 3, batch=1, bust=(True,))))
+                  + list(F.fam_shapes(2, 3, batch=1, bust=(True,))) + list(F.fam_variants(2)))
         rule = ('all DAG shapes n<=4 x requested subsets, every completion order (batch<=2); n<=3 placements x dup x '
                 'types x request variants x pre-cache; single faults (raise/died) n<=4; real SerialRunner slice')
-        e3c = list(F.fam_e3(list(F.fam_shapes(1, 3, pre=False)) + list(F.fam_faults(2, 3, cofs=(True,), reqs='sinks')), workers=(1, 2), liveness=False))
+        e3c = (list(F.fam_e3(list(F.fam_shapes(1, 3, pre=False)) + list(F.fam_faults(2, 3, cofs=(True,), reqs='sinks')), workers=(1, 2), liveness=False))
+               + list(F.fam_e3(F.fam_variants(2), workers=(2,), liveness=False)))     # placements / equal instances / types on the real process runners
     else:
         cfgs = (list(F.fam_shapes(1, 5, batch=2, pre=False)) + list(F.fam_shapes(1, 4, batch=3))
                 + list(F.fam_variants(3, batch=3))
                 + list(F.fam_faults(2, 4, max_faults=2, reqs='subsets', cofs=(True,)))
                 + list(F.fam_faults(5, 5, max_faults=1, reqs='sinks', cofs=(True,)))
                 + list(F.fam_shapes(2, 4, batch=2, bust=(True,))))
-        serial = list(F.fam_shapes(1, 4, batch=1, bust=(False, True))) + list(F.fam_faults(2, 4, cofs=(True,), kinds=('raise',)))
+        serial = list(F.fam_shapes(1, 4, batch=1, bust=(False, True))) + list(F.fam_faults(2, 4, cofs=(True,), kinds=('raise',))) + list(F.fam_variants(3))
         rule = 'n<=5 shapes (batch<=2), n<=4 (batch<=3) with pre-cache; fault sets <=2 on n<=4, <=1 on n=5'
-        e3c = list(F.fam_e3(list(F.fam_shapes(1, 3)) + list(F.fam_faults(2, 3, max_faults=2, cofs=(True,))), workers=(1, 2, None))) + list(F.fam_e3(F.fam_faults(4, 4, cofs=(True,), reqs='sinks'), workers=(2,), liveness=False))
+        e3c = (list(F.fam_e3(list(F.fam_shapes(1, 3)) + list(F.fam_faults(2, 3, max_faults=2, cofs=(True,))), workers=(1, 2, None))) + list(F.fam_e3(F.fam_faults(4, 4, cofs=(True,), reqs='sinks'), workers=(2,), liveness=False))
+               + list(F.fam_e3(F.fam_variants(3), workers=(2,), liveness=False)))
     return run_e2_property('C02', tier, seed, cfgs, serial_configs=serial, e3_configs=e3c, real_cases=list(F.fam_real(F.real_bases('plain') + F.real_bases('faults'), workers=(2,))), rule=rule, assumptions=ASSUME)
